@@ -217,6 +217,20 @@ static J project(World &w) {
         s.set("payload", r.payload);
         seen.set(kv.first, s);
     }
+    // the callback awaiters are harness-owned objects that outlive their subscription: their _next link is
+    // observable at any time (a reusable awaiter must be left with a clean link after release / refusal)
+    J cbnext = J::map();
+    for (auto &kv : w.cbs) {
+        cocls::awaiter *n = kv.second->_next;
+        std::string nm = "null";
+        if (n == &cocls::awaiter::disabled) nm = "ready";
+        else if (n != nullptr) {
+            auto it = w.node_of.find((std::uint64_t) reinterpret_cast<std::uintptr_t>(n));
+            nm = it == w.node_of.end() ? std::string("unknown") : it->second;
+        }
+        cbnext.set(kv.first, nm);
+    }
+    m.set("cbnext", cbnext);
     m.set("pend", pend);
     m.set("res", res);
     m.set("resumes", resumes);
